@@ -47,6 +47,17 @@ class SpecGen(aasgen.Gen):
             if t.__name__ != "NormalizedString":
                 return t
 
+    DECIMALS = ["100", "1200", "1E+5", "0.00000012", "2.50E+3", "-7000", "0.000001", "1.10", "-0.5", "0",
+                "1234567890123456789012345678901234567890", "0.1234567890123456789012345678901", "-1E-9", "5E+30"]
+
+    def xsd_value(self, t):
+        import decimal
+        if t is decimal.Decimal:
+            # integral values with trailing zeros, values below 1e-6, exponents, more than 28 digits: the spellings on
+            # which str(Decimal) / normalize() switch to scientific notation (no xs:decimal literal)
+            return decimal.Decimal(self.rng.choice(self.DECIMALS))
+        return super().xsd_value(t)
+
     def lang(self, clsname):
         r = self.rng
         maxlen = {"MultiLanguageNameType": 64, "MultiLanguageTextType": 1023, "DefinitionTypeIEC61360": 1023,
@@ -102,6 +113,94 @@ def u16(s):
         return s
     b = s.encode("utf-16-le", "surrogatepass")
     return "".join(chr(int.from_bytes(b[i:i + 2], "little")) for i in range(0, len(b), 2))
+
+
+# ------------------------------------------------------------------------------------------------- XSD lexical spaces
+# written from XML Schema Part 2 (lexical representations of the built-in types); independent of the SDK and of C06's
+# Coq recognisers.  Non-string types have whiteSpace=collapse.
+_TZ = r"(Z|[+-]((0\d|1[0-3]):[0-5]\d|14:00))?"
+_YEAR = r"-?([1-9]\d{3,}|0\d{3})"
+_MON, _DAY = r"(0[1-9]|1[0-2])", r"(0[1-9]|[12]\d|3[01])"
+_TIME = r"(([01]\d|2[0-3]):[0-5]\d:[0-5]\d(\.\d+)?|24:00:00(\.0+)?)"
+_INT = r"[+-]?\d+"
+XSD_LEX = {
+    "xs:string": None, "xs:anyURI": None,
+    "xs:boolean": r"true|false|1|0",
+    "xs:decimal": r"[+-]?(\d+(\.\d*)?|\.\d+)",
+    "xs:float": r"[+-]?(\d+(\.\d*)?|\.\d+)([Ee][+-]?\d+)?|[+-]?INF|NaN",
+    "xs:double": r"[+-]?(\d+(\.\d*)?|\.\d+)([Ee][+-]?\d+)?|[+-]?INF|NaN",
+    "xs:duration": r"-?P(?=\d|T\d)(\d+Y)?(\d+M)?(\d+D)?(T(?=\d)(\d+H)?(\d+M)?(\d+(\.\d+)?S)?)?",
+    "xs:dateTime": _YEAR + "-" + _MON + "-" + _DAY + "T" + _TIME + _TZ,
+    "xs:date": _YEAR + "-" + _MON + "-" + _DAY + _TZ,
+    "xs:time": _TIME + _TZ,
+    "xs:gYearMonth": _YEAR + "-" + _MON + _TZ, "xs:gYear": _YEAR + _TZ,
+    "xs:gMonthDay": "--" + _MON + "-" + _DAY + _TZ, "xs:gMonth": "--" + _MON + _TZ, "xs:gDay": "---" + _DAY + _TZ,
+    "xs:hexBinary": r"([0-9a-fA-F]{2})*",
+    "xs:base64Binary": r"(([A-Za-z0-9+/] ?){4})*(([A-Za-z0-9+/] ?){3}[A-Za-z0-9+/]|([A-Za-z0-9+/] ?){2}"
+                       r"[AEIMQUYcgkosw048] ?=|[A-Za-z0-9+/] ?[AQgw] ?= ?=)?",
+}
+XSD_INT_RANGE = {
+    "xs:integer": (None, None), "xs:long": (-2 ** 63, 2 ** 63 - 1), "xs:int": (-2 ** 31, 2 ** 31 - 1),
+    "xs:short": (-2 ** 15, 2 ** 15 - 1), "xs:byte": (-128, 127), "xs:nonPositiveInteger": (None, 0),
+    "xs:negativeInteger": (None, -1), "xs:nonNegativeInteger": (0, None), "xs:positiveInteger": (1, None),
+    "xs:unsignedLong": (0, 2 ** 64 - 1), "xs:unsignedInt": (0, 2 ** 32 - 1), "xs:unsignedShort": (0, 2 ** 16 - 1),
+    "xs:unsignedByte": (0, 255),
+}
+_LEX_RE = {k: re.compile(v) for k, v in XSD_LEX.items() if v}
+_INT_RE = re.compile(_INT)
+
+
+def lexical_ok(xstype, s):
+    """is s a literal of the XSD built-in type named xstype (None: the type is unknown)"""
+    if xstype in ("xs:string", "xs:anyURI"):
+        return True
+    s = " ".join(s.split(" ")).strip(" \t\n\r")
+    if xstype in XSD_INT_RANGE:
+        if not _INT_RE.fullmatch(s):
+            return False
+        lo, hi = XSD_INT_RANGE[xstype]
+        n = int(s)
+        return (lo is None or n >= lo) and (hi is None or n <= hi)
+    if xstype in _LEX_RE:
+        return _LEX_RE[xstype].fullmatch(s) is not None
+    return None
+
+
+TYPED_MEMBERS = ("value", "min", "max")
+
+
+def typed_values_json(d, cls="", out=None):
+    """(class, member, valueType, literal) for every typed value of a JSON document: an object with a valueType member
+    and string members value / min / max (Property, Range, Qualifier, Extension)"""
+    out = [] if out is None else out
+    if isinstance(d, list):
+        for x in d:
+            typed_values_json(x, cls, out)
+    elif isinstance(d, dict):
+        c = d.get("modelType") or cls
+        vt = d.get("valueType")
+        if isinstance(vt, str):
+            for m in TYPED_MEMBERS:
+                if isinstance(d.get(m), str):
+                    out.append((c or "Qualifier|Extension", m, vt, d[m]))
+        for k, v in d.items():
+            typed_values_json(v, {"qualifiers": "Qualifier", "extensions": "Extension"}.get(k, ""), out)
+    return out
+
+
+def typed_values_xml(root):
+    out = []
+    for e in root.iter():
+        if not isinstance(e.tag, str):
+            continue
+        vt = e.find(NS + "valueType")
+        if vt is None or vt.text is None:
+            continue
+        for m in TYPED_MEMBERS:
+            k = e.find(NS + m)
+            if k is not None and len(k) == 0:
+                out.append((Twin.tag(e), m, vt.text, k.text or ""))
+    return out
 
 
 class Patterns:
